@@ -232,7 +232,7 @@ func Attestation(quote []byte) (*tpmpb.Attestation, error) {
 	}
 
 	// Attempt to decode as a raw TDX quote.
-	if tdxquote, err := tabi.QuoteToProto(quote); err == nil {
+	if tdxquote, err := tdxQuoteToProto(quote); err == nil {
 		switch tq := tdxquote.(type) {
 		case *tpb.QuoteV4:
 			tpmat.TeeAttestation = &tpmpb.Attestation_TdxAttestation{TdxAttestation: tq}
@@ -242,6 +242,18 @@ func Attestation(quote []byte) (*tpmpb.Attestation, error) {
 		}
 	}
 	return nil, ErrUnknownFormat
+}
+
+// tdxQuoteToProto parses a raw TDX quote. go-tdx-guest's parser slices past the end of malformed
+// certification data instead of returning an error, and format detection runs on untrusted
+// bytes, so a parser panic is reported as a parse error.
+func tdxQuoteToProto(quote []byte) (parsed any, err error) {
+	defer func() {
+		if r := recover(); r != nil {
+			parsed, err = nil, fmt.Errorf("malformed TDX quote: %v", r)
+		}
+	}()
+	return tabi.QuoteToProto(quote)
 }
 
 func (opts *Options) fromQuote(quote []byte) (endorsement []byte, objectName string, err error) {
